@@ -399,11 +399,11 @@ static void e_begin(void)
 	const char *base = getenv("VERIF_SCRATCH"); if (!base) base = "/tmp";
 	snprintf(scratch, sizeof scratch, "%s/rd.%d", base, (int)getpid());
 	mkdir(scratch, 0700);
-	alarm(60);
 }
 static void e_op(char *line)
 {
 	static char *w[16]; int n;
+	alarm(90);	/* watchdog per operation: a reader that does not terminate is a C01 finding */
 	if (strncmp(line, "load ", 5) == 0) {
 		FILE *f = fopen(line + 5, "rb"); if (!f) { printf("bad-op\n"); return; }
 		fseek(f, 0, SEEK_END); long l = ftell(f); fseek(f, 0, SEEK_SET);
